@@ -238,7 +238,9 @@ class Builder:
     def args(self, k, args, sc):
         out = []
         for p, a in zip(self.r["subs"][k]["params"], args):
-            if p["k"] in ("ref", "abi"):
+            if a[0] == "refparam":
+                out.append(sc.params[a[1]])
+            elif p["k"] in ("ref", "abi"):
                 out.append(sc.var(a[1])[1])
             else:
                 out.append(self.ex(a, sc))
